@@ -141,13 +141,13 @@ Section Ext.
     rewrite get_split_or_resolve_ext. reflexivity.
   Qed.
 
-  Lemma compile_ext svc ords : compile es cx svc ords = compile es' cx svc ords.
-  Proof. unfold compile. rewrite assemble_ext. reflexivity. Qed.
+  Lemma compile_ext svc ords : compile_ord es cx svc ords = compile_ord es' cx svc ords.
+  Proof. unfold compile_ord. rewrite assemble_ext. reflexivity. Qed.
 End Ext.
 
 (* the result does not depend on the order in which the entries are listed *)
 Theorem compile_permutation es es' cx svc ords :
-  NoDup (map ekey es) -> Permutation es es' -> compile es cx svc ords = compile es' cx svc ords.
+  NoDup (map ekey es) -> Permutation es es' -> compile_ord es cx svc ords = compile_ord es' cx svc ords.
 Proof.
   intros Hnd Hp. apply compile_ext.
   - intros k. apply lookup_entry_perm; auto.
